@@ -852,7 +852,14 @@ fn reduce_verdict(ctx: &mut Ctx, what: &str, r: Result<Option<Complex<f64>>, ()>
         *reference = Some(v);
       }
       Some(r0) => {
-        let e = crel(*r0, v);
+        // HOM rate = ½(1 − Σ/N): measured against max(|rate|, ½), see the sweep sub-run
+        let e = if what.contains("hom_rate") {
+          let d = ((v.re - r0.re).powi(2) + (v.im - r0.im).powi(2)).sqrt();
+          let m = (v.re.hypot(v.im)).max(r0.re.hypot(r0.im)).max(0.5);
+          if d == 0.0 { 0.0 } else { d / m }
+        } else {
+          crel(*r0, v)
+        };
         let ok = e <= 1e-12;
         ctx.s("C15.reduce", ok, &format!("reduce/{}/{}", what, if ok { "ok" } else { "differs" }), &format!("{} rel={:.3e} value=({:e},{:e})", detail, e, v.re, v.im));
       }
@@ -1341,7 +1348,16 @@ fn sweep_part(ctx: &mut Ctx) {
               }
               (Some(Val::Num(z)), Some(Val::Num(z0))) => {
                 let finite = z.re.is_finite() && z.im.is_finite();
-                let e = crel(*z0, *z);
+                // a HOM rate is ½(1 − Σ/N): the parallel reduction is Σ/N (of order 1), of which the rate is an
+                // affine function that cancels near a dip (|rate| ≪ 1); the statement's 1e-12 is relative to the
+                // reduction, so the rate is measured against max(|rate|, ½) (seed 11: rate −2.1e-4, |Δ| = 1 ulp of 1)
+                let e = if what.contains("hom_rate") {
+                  let d = ((z.re - z0.re).powi(2) + (z.im - z0.im).powi(2)).sqrt();
+                  let m = (z.re.hypot(z.im)).max(z0.re.hypot(z0.im)).max(0.5);
+                  if d == 0.0 { 0.0 } else { d / m }
+                } else {
+                  crel(*z0, *z)
+                };
                 let ok = finite && e <= 1e-12;
                 ctx.s("C15.reduce", ok, &format!("sweep/{}/{}", what, if ok { "ok" } else if !finite { "non-finite" } else { "differs" }), &format!("{} rel={:.3e} value=({:e},{:e}) one_thread=({:e},{:e})", tail, e, z.re, z.im, z0.re, z0.im));
               }
